@@ -256,8 +256,12 @@ def c05_jobs(tier):
             for cls in (0, 1, 2, 3):
                 for edge in ((1,) if tier == "quick" else (1, 2)):
                     jobs.append(J("sml", "ZZ_C05_int", typ=typ, cls=cls, k=0, neg=neg, edge=edge, **T))
+                for edge in (3, 4):  # around and beyond 2^64 for every item type
+                    if tier != "quick" or typ in (1, 3, 4, 10, 11, 6) or cls == 0:
+                        jobs.append(J("sml", "ZZ_C05_int", typ=typ, cls=cls, k=0, neg=neg, edge=edge, **T))
     jobs += [J("sml", "ZZ_C05_follow", lit=i, **T) for i in range(8)]
     jobs += [J("sml", "ZZ_C05_vars", form=f, **T) for f in range(3)]
+    jobs += [J("sml", "ZZ_C05_signs", typ=t, **T) for t in INT_TYPES + [1]]
     for typ in INT_TYPES + [1]:
         jobs.append(J("sml", "ZZ_C05_two", typ=typ, **T))
     for typ in ([1, 5, 12, 10] if tier == "quick" else INT_TYPES + [1]):
@@ -435,8 +439,8 @@ def c04_jobs(tier):
 
 def c17_jobs(tier):
     D = dict(call_depth=6000, fuel=400_000_000)
-    return ([J("sml", "ZZ_C17_noninterference", op=op, **D) for op in range(13)] + [J("sml", "ZZ_C17_results", which=w) for w in range(4)]
-            + [J("sml", "ZZ_C17_bare", order=o) for o in range(4)] + [J("sml", "ZZ_C17_history", b=b, **D) for b in range(13)])
+    return ([J("sml", "ZZ_C17_noninterference", op=op, **D) for op in range(15)] + [J("sml", "ZZ_C17_results", which=w) for w in range(4)]
+            + [J("sml", "ZZ_C17_bare", order=o) for o in range(4)] + [J("sml", "ZZ_C17_history", b=b, **D) for b in range(15)])
 
 
 def c12_jobs(tier):
@@ -536,7 +540,7 @@ PROPS = {
                 level_text="Sufficient-condition certificate (not schedule exploration): symbolic execution with a ghost write-set monitor over all cells reachable from the shared objects and package-level variables, plus map-iteration-order independence of every result.",
                 level_note="The engine is single-threaded: Go scheduler interleavings are not enumerated and the race detector is not run. Standard-library entry points (regexp, fmt, strconv, unicode) are trusted to be goroutine-safe as documented. A change that starts goroutines makes the check INCONCLUSIVE.",
                 technique="symbolic execution of go/ssa with a ghost write-set monitor (non-interference certificate) + SMT-decided path feasibility",
-                bounds={"operations": 10, "objects": "one template message (variables of all kinds, ellipsis), one complete message; constants symbolic", "map orders": 4},
+                bounds={"operations": 15, "objects": "one template message (variables of all kinds, ellipsis), one complete message; constants symbolic", "map orders": 4},
                 outside=["actual concurrent schedules", "operations on objects outside the menu"]),
     "C04": dict(jobs=c04_jobs, must_reach=["end"],
                 level_text="Bounded model checking of print->parse: messages are built with constructors from symbolic header fields, names, characters and numbers, printed by the real String methods (fmt/strconv modelled, digits of symbolic numbers materialised by forking on their length) and parsed by the real lexer/parser in the same path; the result must be one message, no diagnostics, equal fields/variables/printed form/bytes. Conversely accepted menu texts are printed and re-parsed (fixed point).",
